@@ -31,14 +31,18 @@ class SetEncoder(encoder.SetEncoder):
                 return component.effectiveTagSet
             else:
                 # TODO: move out of sorting key function
-                names = [namedType.name for namedType in asn1Spec.componentType.namedTypes
-                         if namedType.name in component]
-                if len(names) != 1:
-                    raise error.PyAsn1Error(
-                        '%s components for Choice at %r' % (len(names) and 'Multiple ' or 'None ', component))
+                # the tag the value is encoded under, also through nested CHOICEs
+                while asn1Spec.typeId == univ.Choice.typeId and not asn1Spec.tagSet:
+                    names = [namedType.name for namedType in asn1Spec.componentType.namedTypes
+                             if namedType.name in component]
+                    if len(names) != 1:
+                        raise error.PyAsn1Error(
+                            '%s components for Choice at %r' % (len(names) and 'Multiple ' or 'None ', component))
 
-                # TODO: support nested CHOICE ordering
-                return asn1Spec[names[0]].tagSet
+                    component = component[names[0]]
+                    asn1Spec = asn1Spec[names[0]]
+
+                return asn1Spec.tagSet
 
         else:
             return compType.tagSet
